@@ -131,7 +131,7 @@ def exec (st : State) (toks : List String) : State × List String :=
           | _ => []
         let l3 := match decodeParts limit body with
           | .ok d => [s!"changes {repr d.changes}", s!"opsFail {repr d.opsFail} rows={d.ops.length}",
-                      showO "collect" (collectRows d.ops ⟨mkBuilders d.changes, none, []⟩),
+                      showO "collect" (placeAll (emitRows d.ops ⟨none, []⟩).1 (mkBuilders d.changes, 0)),
                       s!"builders {repr ((mkBuilders d.changes).map (fun b => (b.change, b.actor, b.seq, b.start, b.maxOp)))}",
                       showO "rebuild" (rebuild d.actors d.heads d.changes d.ops d.opsFail)]
           | _ => []
